@@ -111,9 +111,10 @@ PLAN = {
               "sdo_write exchanges an expedited download carrying exactly the value's bytes zero padded to 4, size = 4-len, the right index / sub-index / "
               "complete-access flag and a counter in 1..=7 (values > 4 bytes are refused); sdo_read sends an upload for exactly (index, sub-index) and "
               "returns the decoding of the first 4-size bytes (expedited) resp. of the length-10 bytes after the 4-byte size field (normal), "
-              "refusing objects larger than the destination with TooLong; SdoNormal::upload / SdoSegmented::upload / SdoExpedited::download field values",
-        note="relative to the spec encodings (the device is not modelled); segmented uploads are covered by the safety obligations (C16) but their "
-             "concatenation/toggle clause is not stated; array helpers are not under contract; the field decoders of the two reply shapes declared inside "
+              "refusing objects larger than the destination with TooLong; a SEGMENTED answer returns the decoding of the concatenation of the segments' data parts "
+              "(length-3 bytes each, the 7-byte minimum cut by segment_data_size), requested with toggle bits 0,1,0,.. and counters in 1..=7, ending at the first "
+              "segment marked last (ghost sequences of requests/replies carried through the loop); SdoNormal::upload / SdoSegmented::upload / SdoExpedited::download field values",
+        note="relative to the spec encodings (the device is not modelled); array helpers are not under contract; the field decoders of the two reply shapes declared inside "
              "mailbox_write_read (HeadersRaw, EmergencyData) are assumed to decode what their #[wire] attributes say (a harness cannot name a fn-local type); "
              "wait_for_mailboxes / wait_for_mailbox_response (status polling under `async{}.timeout()`) are assumed to return the configured mailboxes / any bytes; "
              "other header wire layouts are the C19 harnesses",
